@@ -774,6 +774,12 @@ func (ds *AnySource) writeControlStart(config *WriteControlConfig) error {
 			return mapError{msg: fmt.Sprintf("map error: have length %v, want %v, want value calculated as (nchan %v / channelsPerPixel %v)",
 				len(config.MapInternalOnly.Pixels), ds.nchan/ds.channelsPerPixel, ds.nchan, ds.channelsPerPixel)}
 		}
+		for _, channelNumber := range ds.chanNumbers {
+			if channelNumber < 1 || channelNumber > len(config.MapInternalOnly.Pixels) {
+				return mapError{msg: fmt.Sprintf("map error: channel number %v has no pixel in a map of %v pixels",
+					channelNumber, len(config.MapInternalOnly.Pixels))}
+			}
+		}
 	}
 	path := ds.writingState.BasePath
 	if len(config.Path) > 0 {
